@@ -610,7 +610,18 @@ impl World {
             }
         };
         let raw = node.raw.as_ref().unwrap();
-        let post = Self::observe(raw);
+        let post = match catch_unwind(AssertUnwindSafe(|| Self::observe(raw))) {
+            Ok(p) => p,
+            Err(_) => {
+                // reading the observable state itself failed: an internal structure is corrupt
+                let msg = take_last_panic().unwrap_or_default();
+                let (prop, check): (&'static str, &'static str) = if msg.contains("inflights") { ("C18", "C18.window_is_fifo") } else { ("C14", "C14.logical_log") };
+                let d = format!("node {n}: reading its state after {} panicked: {msg}", kind_name(&kind));
+                let raw = self.nodes.get_mut(&n).unwrap().raw.take();
+                std::mem::forget(raw);
+                return Err(self.violation(prop, check, n, d, "state_unreadable".into()));
+            }
+        };
         let emitted: Vec<Message> = if post.msgs_len > pre.msgs_len && !matches!(kind, CallKind::Ready) {
             raw.raft.msgs[pre.msgs_len..].to_vec()
         } else {
